@@ -198,12 +198,14 @@ def _u5(run: Run) -> None:
 
         def global_value(self, n):
             d_ = dotted(n)
-            if d_ == "Celsius.CELSIUS_TO_KELVIN_OFFSET":
+            if d_ and d_.startswith("Celsius.") and d_.count(".") == 1:
+                # a class attribute of Celsius (the offset, or whatever constant a rewrite adds)
                 cls_ = next((s_ for s_ in cm.tree.body if isinstance(s_, ast.ClassDef) and s_.name == "Celsius"), None)
                 for st in (cls_.body if cls_ else []):
-                    if isinstance(st, (ast.Assign, ast.AnnAssign)) and any(isinstance(t, ast.Name) and t.id == "CELSIUS_TO_KELVIN_OFFSET" for t in (st.targets if isinstance(st, ast.Assign) else [st.target])):
+                    if isinstance(st, (ast.Assign, ast.AnnAssign)) and st.value is not None \
+                            and any(isinstance(t, ast.Name) and t.id == d_.split(".")[1] for t in (st.targets if isinstance(st, ast.Assign) else [st.target])):
                         return self.ev(st.value, {}, {})
-                self.fail(n, "Celsius.CELSIUS_TO_KELVIN_OFFSET not found")
+                self.fail(n, f"{d_} not found")
             if d_ in ("units.temperature", ):
                 return ("dimension", "temperature")
             if d_ in ("units.kelvin", "units.K"):
